@@ -21,6 +21,11 @@ def _load_floors():
     return {}
 
 
+EXACT_FLOORS = {
+    "commit_fns", "commits", "index_inserts", "bucket_readers", "lookup_fns", "listing_fns", "link_to_configurations",
+    "persist_sites", "removal_entry_points", "checked_entry", "read_only_entries", "link_entry_points", "stream_impls",
+    "linker_read_impls", "temp_owner_types", "sync_async_pairs", "runtime_pairs", "public_entry_points", "writeopts_setters",
+}
 _FLOORS = _load_floors()
 _RECORDED = {}
 
@@ -80,7 +85,9 @@ class Report:
         if os.environ.get("VERIF_RECORD_FLOORS"):
             _RECORDED.setdefault(self.prop, {})[k] = measured
         elif rec is not None:
-            floor = rec
+            # role / public-API anchors are exact; plain site counts tolerate refactoring (helper extraction, merged
+            # copies) down to half of what was counted on the pinned tree — the floor guards against vacuity only
+            floor = rec if name in EXACT_FLOORS else max(1, (rec + 1) // 2)
         self.floors[k] = (measured, floor)
         if measured < floor:
             self.anchor_errors.append("ANCHOR-MISSING %s: measured %d < floor %d" % (k, measured, floor))
